@@ -9,6 +9,7 @@ import (
 	"runtime"
 	"strings"
 	"sync"
+	"sync/atomic"
 	"time"
 
 	"verifharness/internal/chainkit"
@@ -306,10 +307,20 @@ type gate struct {
 
 func newGate() *gate { return &gate{s: newSub("G", 0)} }
 
-// step lets exactly one execution event through.
-func (g *gate) step() {
-	x := <-g.s.chE
-	g.log = append(g.log, execItem(x))
+// step lets exactly one execution event through; false if none arrives (then the gate cannot hold the dispatcher and the
+// episode goes on ungated: the recorded roles are judged all the same).
+func (g *gate) step() bool {
+	if gateBroken.Load() {
+		return false
+	}
+	select {
+	case x := <-g.s.chE:
+		g.log = append(g.log, execItem(x))
+		return true
+	case <-time.After(gatePatience):
+		gateBroken.Store(true)
+		return false
+	}
 }
 
 // release reads everything from now on.
@@ -372,14 +383,26 @@ func parked(fn, st string) int {
 	return c
 }
 
-// waitFor polls a condition on goroutine states (no verdict depends on the time this takes).
+// gatePatience bounds every wait for a goroutine to reach the state an episode wants it in. Giving up changes which
+// interleaving is explored, never a verdict: the trace records what was done and the specification judges every outcome.
+// After the first time-out the driver stops waiting at all (a node whose dispatcher never reaches the gate would
+// otherwise cost the patience once per episode).
+const gatePatience = 5 * time.Second
+
+var gateBroken atomic.Bool
+
+// waitFor polls a condition on goroutine states (no verdict depends on the time this takes, nor on whether it gives up).
 func waitFor(what string, cond func() bool) error {
-	dl := time.Now().Add(60 * time.Second)
+	if gateBroken.Load() {
+		return fmt.Errorf("not waiting for %s", what)
+	}
+	dl := time.Now().Add(gatePatience)
 	for i := 0; ; i++ {
 		if cond() {
 			return nil
 		}
 		if time.Now().After(dl) {
+			gateBroken.Store(true)
 			return fmt.Errorf("timed out waiting for %s", what)
 		}
 		if i < 20 {
